@@ -39,6 +39,7 @@ const (
 )
 
 type task struct {
+	gid    int64
 	state  int32
 	obj    int32 // index in objs of the mutex/channel concerned
 	flag   uint32
@@ -83,6 +84,8 @@ type Sched struct {
 	DeadlockS string
 	abort     string
 	active    bool
+	goDone    chan struct{}
+	goCount   int
 	OnAbort   func(kind, msg string) // called (once) on deadlock / step overflow; must not return normally if the run cannot continue
 }
 
@@ -117,6 +120,7 @@ func (s *Sched) Release() {
 	s.ntasks, s.nobjs, s.cur, s.tape = 0, 0, 0, nil
 	s.Steps, s.MaxSteps, s.Switches, s.NonDefault, s.ndecisions, s.SchedHash, s.TailHeadRace = 0, 0, 0, 0, 0, 0, 0
 	s.deadlock, s.DeadlockS, s.abort, s.active, s.OnAbort = false, "", "", false, nil
+	s.goCount = 0
 	if len(schedPool) < 4 {
 		schedPool = append(schedPool, s)
 	}
@@ -187,6 +191,13 @@ func (s *Sched) Reap(main *rt.Thread) {
 // End drains, uninstalls the scheduler and returns the leak description.
 func (s *Sched) End() string {
 	leak := s.drain()
+	for ; s.goCount > 0; s.goCount-- {
+		select {
+		case <-s.goDone:
+		default:
+			// a task that never finished (reported as a leak above)
+		}
+	}
 	s.deactivate()
 	setSched(nil)
 	return leak
@@ -432,7 +443,17 @@ func schedHook(ev int, target *rt.Thread) {
 	}
 	p := unsafe.Pointer(target)
 	if debugSched {
-		fmt.Fprintf(os.Stderr, "hook ev=%d target=%p cur=%d steps=%d\n", ev, target, s.cur, s.Steps)
+		g := goid()
+		fmt.Fprintf(os.Stderr, "hook ev=%d target=%p cur=%d steps=%d g%d\n", ev, target, s.cur, s.Steps, g)
+		if ev != rt.VerifEvStart && ev != rt.VerifEvAfterRecv {
+			c := &s.tasks[s.cur]
+			if c.gid == 0 {
+				c.gid = g
+			} else if c.gid != g {
+				fmt.Fprintf(os.Stderr, "SCHED BUG: hook ev=%d called by goroutine %d but the baton holder task%d is goroutine %d\n", ev, g, s.cur, c.gid)
+				os.Exit(5)
+			}
+		}
 	}
 	switch ev {
 	case rt.VerifEvSpawn:
@@ -440,7 +461,9 @@ func schedHook(ev int, target *rt.Thread) {
 	case rt.VerifEvStart:
 		me := s.taskOfThread(p)
 		if me < 0 {
-			return
+			// A goroutine spawned while another (or no) scheduler was active: it must
+			// not take part in this run.  Its runtime is garbage by now; park it.
+			select {}
 		}
 		s.wait(me)
 		s.tasks[me].state = tsRunnable
@@ -528,10 +551,18 @@ func (s *Sched) Cur() int { return int(s.cur) }
 //go:noinline
 func (s *Sched) Go(f func()) {
 	me := s.newTask(nil)
+	if s.goDone == nil {
+		s.goDone = make(chan struct{}, 64)
+	}
+	s.goCount++
+	done := s.goDone
 	go func() {
 		s.wait(me)
 		s.setRunnable(me)
 		f()
+		// a real (race-detector visible) join with the task that will call End: what
+		// the task produced may be read after the run.  It orders nothing between tasks.
+		done <- struct{}{}
 		s.exit()
 	}()
 }
@@ -620,4 +651,17 @@ type SchedStats struct {
 // Stats returns the counters.
 func (s *Sched) Stats() SchedStats {
 	return SchedStats{s.Steps, s.Switches, s.NonDefault, s.TailHeadRace, s.ntasks, s.SchedHash}
+}
+
+func goid() int64 {
+	var buf [64]byte
+	n := runtime.Stack(buf[:], false)
+	var id int64
+	for _, c := range buf[len("goroutine "):n] {
+		if c < '0' || c > '9' {
+			break
+		}
+		id = id*10 + int64(c-'0')
+	}
+	return id
 }
